@@ -1,4 +1,5 @@
 import CobyqaVerif.Alg.TcgImprove
+import CobyqaVerif.Alg.Memo
 
 /-!
 # An evaluation-friendly form of `Alg/TcgImprove.lean`
@@ -12,11 +13,6 @@ namespace Cobyqa.Tcg
 open Matrix
 
 variable {K : Type} [Field K] [LinearOrder K] [IsStrictOrderedRing K] {n : ℕ}
-
-/-- tabulate a vector (the identity, extensionally) -/
-def memo (f : Fin n → K) : Fin n → K :=
-  let a := Array.ofFn f
-  fun i => a[i.val]'(by simp [a])
 
 def ipassFast (P : Prob n K) (R : IParams K) (s : ISt n K) : ISt n K ⊕ ISt n K :=
   let ss := freeDot s s.step s.step
